@@ -23,6 +23,7 @@ import json
 import os
 import random
 import re
+import sys
 import time
 
 import vlib
@@ -48,6 +49,14 @@ SFLO_MASK_OPS_NOTE = ("the fraction word printed for SFlo results is compared mo
 
 
 # ------------------------------------------------------------------ helpers
+
+_T0 = time.time()
+
+
+def _log(msg):
+    if os.environ.get("VERIF_VERBOSE"):
+        print("[c04 %6.1fs] %s" % (time.time() - _T0, msg), file=sys.stderr, flush=True)
+
 
 def _cfg(text):
     d = vlib.scratch("c04cfg")
@@ -101,7 +110,8 @@ def canon_line(op, line, sig):
         return line
 
 
-def run_cases(build, cases, sig, workdir, tag, want_cfold, want_fint_batches, modes=G.MODES, variable_first=False):
+def run_cases(build, cases, sig, workdir, tag, want_cfold, want_fint_batches, modes=G.MODES, variable_first=False,
+              batch=BATCH):
     """Run all cases in batches (in parallel); evaluator crashes end a batch early: the crashing case is recorded
     and the remaining cases are re-run.  Returns (obs, crashes, cfold_files, fint_files) where
     obs[i] = {mode: line or None}."""
@@ -109,8 +119,8 @@ def run_cases(build, cases, sig, workdir, tag, want_cfold, want_fint_batches, mo
     crashes = []                      # (case index, mode, stderr tail)
     cfold_files, fint_files = [], []
     jobs = []
-    for bi in range(0, len(cases), BATCH):
-        jobs.append(list(range(bi, min(len(cases), bi + BATCH))))
+    for bi in range(0, len(cases), batch):
+        jobs.append(list(range(bi, min(len(cases), bi + batch))))
 
     def one(job_no, idxs):
         name = "%s%04d" % (tag, job_no)
@@ -327,6 +337,7 @@ def run(chk, tier):
                           % (r.violated, module), r.trace_text, key={"model": module, "inv": r.violated})
             return
 
+    _log("model checks done")
     # ---------------- (B) expected table from TLC
     stride = int(os.environ.get("VERIF_C04_STRIDE", "3")) if thorough else 251
     stride3 = 2 if thorough else 61
@@ -373,6 +384,7 @@ def run(chk, tier):
     if len(cases) < 3000:
         raise vlib.MachineryError("only %d cases exported by TLC" % len(cases))
 
+    _log("%d cases from TLC" % len(cases))
     # ---------------- run on the three evaluators
     t0 = time.time()
     order = list(range(len(cases)))
@@ -381,6 +393,7 @@ def run(chk, tier):
     obs, crashes, cfold_files, fint_files = run_cases(build, cases, sig, work, "b", True, 3 if not thorough else 12)
     chk.extra["run_s"] = round(time.time() - t0, 1)
 
+    _log("three routes run")
     # ---------------- compare (specified: equality with the TLC table; unspecified: Observe events for TLC)
     viol = collections.OrderedDict()       # key tuple -> [detail...]
 
@@ -421,7 +434,8 @@ def run(chk, tier):
         vsel = vsel[::2]
     vcases = [cases[i] for i in vsel]
     t0 = time.time()
-    vobs, vcrashes, _, _ = run_cases(build, vcases, sig, work, "v", False, 0, modes=("q2v",), variable_first=True)
+    vobs, vcrashes, _, _ = run_cases(build, vcases, sig, work, "v", False, 0, modes=("q2v",), variable_first=True,
+                                        batch=300)      # the optimiser is quadratic in the size of such a program
     chk.extra["run_q2v_s"] = round(time.time() - t0, 1)
     chk.extra["cases_q2v"] = len(vcases)
     for k, c in enumerate(vcases):
@@ -450,6 +464,7 @@ def run(chk, tier):
     for c in cases[:3]:
         chk.sample({"op": c["op"], "args": [str(a) for a in c["args"]], "tlc": G.expected_line(c, sig)})
 
+    _log("q2v route run")
     # ---------------- (C) hook events
     dedupe = set()
     cfold_events, n_cfold_raw = [], 0
@@ -498,6 +513,7 @@ def run(chk, tier):
     t0 = time.time()
     total, rejects, disagrees = validate_trace(chk, events, work, "trace", 8 if not thorough else 16)
     chk.extra["trace_s"] = round(time.time() - t0, 1)
+    _log("traces validated")
     chk.extra["trace_summary"] = dict(total)
     chk.traces += len(events)
     if events and total.get("checked", 0) + total.get("observed", 0) == 0:
